@@ -356,7 +356,7 @@ func TestVerifC19Push(t *testing.T) {
 					}
 				}
 				kinds := []string{"valid", "valid", "valid", "valid-all", "under", "unsigned", "foreign", "wrongdigest", "wrongset", "current-signs-old",
-					"unordered", "dupsigner", "dup", "retry-full", "index-out"}
+					"unordered", "dupsigner", "dup", "retry-full", "index-out", "forged-copy", "forged-copy"}
 				kind := kinds[r.below(len(kinds))]
 				var v *vaa.VAA
 				raw := r.bytes(8)
@@ -444,6 +444,40 @@ func TestVerifC19Push(t *testing.T) {
 					} else {
 						v = mkVAA(g)
 						signWith(v, set, subset(n, q))
+					}
+				case "forged-copy":
+					// the BODY of a VAA that was verified before (preferably one whose hand-off failed, so that the deduplicator does not know it),
+					// with signatures that do not verify: one signature replaced by noise, or cut to below the quorum, or the set index changed
+					var src *vaa.VAA
+					if len(fullOnes) > 0 {
+						src = fullOnes[r.below(len(fullOnes))].v
+					} else if len(earlier) > 0 {
+						src = earlier[r.below(len(earlier))].v
+					}
+					if src == nil || len(src.Signatures) == 0 {
+						v = mkVAA(g)
+						signWith(v, set, subset(n, q))
+						v.Signatures[0].Signature[3] ^= 0x40
+					} else {
+						cp := *src
+						cp.Signatures = nil
+						for _, sg := range src.Signatures {
+							c := *sg
+							cp.Signatures = append(cp.Signatures, &c)
+						}
+						switch r.below(3) {
+						case 0:
+							cp.Signatures[r.below(len(cp.Signatures))].Signature[1+r.below(60)] ^= 0x20
+						case 1:
+							cp.Signatures = cp.Signatures[:len(cp.Signatures)-1]
+							if len(cp.Signatures) > 0 {
+								cp.Signatures[0].Signature[5] ^= 1
+							}
+						default:
+							cp.GuardianSetIndex = uint32((int(cp.GuardianSetIndex) + 1) % K)
+							cp.Signatures[0].Signature[7] ^= 2
+						}
+						v = &cp
 					}
 				case "retry-full":
 					if len(fullOnes) > 0 {
